@@ -2539,6 +2539,89 @@ fn retune_crystal_theta(spdc: &SPDC) -> Option<SPDC> {
   None
 }
 
+/// grating of the period 2π/Δk_z (Δk_z of the bare crystal at the centre frequencies, beams as they are) that brings the centre of a
+/// collinear setup back to phase matching — the harness's own rematch for geometries the crate's optimum calls would rebuild
+fn rematch_by_period(spdc: &SPDC) -> Option<SPDC> {
+  let ws0 = raw_w(spdc.signal.frequency());
+  let wi0 = raw_w(spdc.idler.frequency());
+  let mut bare = spdc.clone();
+  bare.pp = PeriodicPoling::Off;
+  let x = half_dkz_l(&bare, ws0, wi0)?;
+  let dkz = 2.0 * x / spdc.crystal_setup.length.value_unsafe;
+  if !dkz.is_finite() || dkz == 0.0 {
+    return None;
+  }
+  for sgn in [1.0, -1.0] {
+    let mut t = spdc.clone();
+    t.pp = PeriodicPoling::new(sgn * std::f64::consts::TAU / dkz * M, Apodization::Off);
+    if matches!(half_dkz_l(&t, ws0, wi0), Some(v) if v.abs() < 0.5) {
+      return Some(t);
+    }
+  }
+  None
+}
+
+/// Hand-assembled geometries: pieces of a setup's state that are redundant for the phase-matching amplitude are edited one at a
+/// time after the crate's optimum calls have built the setup, so that they DISAGREE — `crystal_setup.counter_propagation` vs the
+/// beams' own directions (the flag only steers the optimum idler), `crystal_setup.pm_type` vs the beams' own polarisations, the
+/// azimuth of a beam on the axis, a beam turned round by hand (θ → 180° − θ; phase matching restored by a harness-side grating).
+/// All of them are collinear setups of the statement; the amplitude is a function of the beams.
+fn hand_edit(ctx: &mut Ctx, spdc: &mut SPDC) -> Vec<&'static str> {
+  let mut tags: Vec<&'static str> = vec![];
+  let pi = std::f64::consts::PI;
+  // the flag alone
+  if ctx.rng.below(5) == 0 {
+    spdc.crystal_setup.counter_propagation = !spdc.crystal_setup.counter_propagation;
+    tags.push("flag-flipped");
+  }
+  // the label alone
+  if ctx.rng.below(10) == 0 {
+    let other = *ctx.rng.pick(&PMTYPES);
+    if other != spdc.crystal_setup.pm_type {
+      spdc.crystal_setup.pm_type = other;
+      tags.push("label-edited");
+    }
+  }
+  // azimuth of an on-axis beam (θ = 0 or 180°: the direction does not depend on φ)
+  if ctx.rng.below(8) == 0 {
+    let phi = if ctx.rng.coin() { ctx.rng.range(0.0, 360.0) } else { *ctx.rng.pick(&[0.0, 90.0, 180.0, 270.0]) };
+    if ctx.rng.coin() {
+      let th = spdc.idler.theta_internal();
+      spdc.idler.set_angles(phi * DEG, th);
+      tags.push("idler-azimuth");
+    } else {
+      let th = spdc.signal.theta_internal();
+      spdc.signal.set_angles(phi * DEG, th);
+      tags.push("signal-azimuth");
+    }
+  }
+  // a beam turned round by hand (poled setups: the grating is re-chosen by the harness; the flag stays as it was)
+  if spdc.pp != PeriodicPoling::Off && ctx.rng.below(8) == 0 {
+    let mut t = spdc.clone();
+    let which = ctx.rng.below(5);
+    if which <= 2 {
+      let th = pi - t.idler.theta_internal().value_unsafe;
+      t.idler.set_angles(*ctx.rng.pick(&[0.0, 180.0]) * DEG, th * RAD);
+    }
+    if which >= 2 {
+      let th = pi - t.signal.theta_internal().value_unsafe;
+      t.signal.set_angles(*ctx.rng.pick(&[0.0, 180.0]) * DEG, th * RAD);
+    }
+    match rematch_by_period(&t) {
+      Some(r) => {
+        *spdc = r;
+        tags.push(match which {
+          0 | 1 => "idler-turned",
+          2 => "both-turned",
+          _ => "signal-turned",
+        });
+      }
+      None => ctx.count("c05/hand-edit/turned-rematch-failed"),
+    }
+  }
+  tags
+}
+
 fn c05_cases(ctx: &mut Ctx) {
   let opts_co = GenOpts { plane_wave: true, phase_matched: true, counter: None, tilted_biaxial: false, unpoled: false };
   let opts_sb = GenOpts { plane_wave: true, phase_matched: true, counter: Some(true), tilted_biaxial: false, unpoled: false };
@@ -2584,7 +2667,15 @@ fn c05_cases(ctx: &mut Ctx) {
       }
       ctx.count(if lam.abs() > l { "c05/long-period/longer-than-crystal" } else { "c05/long-period/shorter-than-crystal" });
     }
-    let v = view(&spdc).unwrap();
+    // hand-assembled geometries whose redundant pieces of state disagree
+    let edited = hand_edit(ctx, &mut spdc);
+    let v = match view(&spdc) {
+      Some(v) if v.all_finite() => v,
+      _ => {
+        ctx.count("c05/hand-edit/view-unavailable");
+        continue;
+      }
+    };
     let ws0 = raw_w(spdc.signal.frequency());
     let wi0 = raw_w(spdc.idler.frequency());
     // phase matched at the centre?  (the crate's optimum call may return a non-matching setup: C04)
@@ -2639,7 +2730,12 @@ fn c05_cases(ctx: &mut Ctx) {
       Integrator::ClenshawCurtis { .. } => "clenshaw",
       Integrator::GaussKonrod { .. } => "gk",
     };
-    let desc = describe(&spdc);
+    let desc = format!(
+      "edited={} flag={} {}",
+      if edited.is_empty() { "none".to_string() } else { edited.join("+") },
+      spdc.crystal_setup.counter_propagation as u8,
+      describe(&spdc)
+    );
     // ρ of the statement, independent of the accessor the integrand itself reads
     let rho = match walkoff_independent(&spdc) {
       Some(r) => r,
@@ -2719,6 +2815,13 @@ fn c05_cases(ctx: &mut Ctx) {
       }
     ));
     ctx.count(&format!("c05/integrator/{}", iname));
+    for t in edited.iter() {
+      ctx.count(&format!("c05/hand-edit/{}", t));
+    }
+    {
+      let opposite = (spdc.signal.direction().z < 0.0) != (spdc.idler.direction().z < 0.0);
+      ctx.count(if opposite == spdc.crystal_setup.counter_propagation { "c05/flag/agrees-with-beams" } else { "c05/flag/disagrees-with-beams" });
+    }
     ctx.count(if x == 0.0 { "c05/walkoff/none" } else if x <= C05_X_MAX { "c05/walkoff/negligible" } else { "c05/walkoff/appreciable" });
 
     // ---- peak value vs (4/Σ) √π erf(x)/(2x)
